@@ -179,7 +179,7 @@ class Ctx:
     def derive(self, *parts):
         return derive_seed(self.seed, self.prop, self.shard, *parts)
 
-    def hyp(self, name, strategy, body, max_examples, stateful=None):
+    def hyp(self, name, strategy, body, max_examples, shrink=True):
         """Run `body(value)` over `strategy` with Hypothesis; raises Violation (the shrunk
         one) if the body raised one."""
         import hypothesis
@@ -188,7 +188,7 @@ class Ctx:
         st = settings(max_examples=max_examples, database=None, deadline=None,
                       derandomize=False, report_multiple_bugs=False,
                       suppress_health_check=list(HealthCheck),
-                      phases=[Phase.generate, Phase.shrink],
+                      phases=[Phase.generate, Phase.shrink] if shrink else [Phase.generate],
                       print_blob=False)
 
         @hypothesis.seed(sd)
